@@ -12,10 +12,11 @@ let clause_name = function
   | PaClNoHidden -> "no_hidden_columns" | PaClGroupOnce -> "group_once" | PaClItemValue -> "item_value"
   | PaClHaving -> "having_filter" | PaClHavingLost -> "having_lost" | PaClSorted -> "sort_sorted"
   | PaClLimit -> "limit_prefix" | PaClTopN -> "limit_topn" | PaClDistinct -> "distinct_nodup"
+  | PaClDistinctLost -> "distinct_lost"
 
 let mkq (n : int) (d : int) : q = { qnum = zi n; qden = pos_of_int d }
 
-(* value token: q<num>_<den> | s<hex> | z *)
+(* value token: q<num>_<den> | s<hex> | z | b0 / b1 (a Go bool) *)
 let parse_val (t : string) : pa_val =
   match t.[0] with
   | 'q' ->
@@ -25,6 +26,7 @@ let parse_val (t : string) : pa_val =
        | _ -> failwith ("bad number " ^ t))
   | 's' -> PaStr (bytes_of_hex (String.sub t 1 (String.length t - 1)))
   | 'z' -> PaNull
+  | 'b' -> PaBool (t = "b1")
   | _ -> failwith ("bad value " ^ t)
 
 let parse_col (t : string) : pa_col =
@@ -112,7 +114,7 @@ let rec parse_rows n toks = if n = 0 then ([], toks) else
 
 let show_val = function
   | PaNum x -> Printf.sprintf "%d/%d" (Win.int_of_z x.qnum) (int_of_pos x.qden)
-  | PaStr s -> "s" ^ hex_of_bytes s | PaNull -> "null"
+  | PaStr s -> "s" ^ hex_of_bytes s | PaNull -> "null" | PaBool b -> if b then "true" else "false"
 let show_col = function
   | PaGroup j -> Printf.sprintf "g%d" (int_of_nat j) | PaItem i -> Printf.sprintf "i%d" (int_of_nat i)
   | PaHidden n -> Printf.sprintf "h%d" (int_of_nat n) | PaOther n -> Printf.sprintf "x%d" (int_of_nat n) | PaPlace _ -> "p"
@@ -182,7 +184,8 @@ let handle_q (toks : string list) : string =
             | `Chk s | `Diff s -> s
             | `Ok ->
                 if count_groups inp >= 2 && (qy.pq_having <> None || qy.pq_order <> [] || has_limit) then "ok nt"
-                else if mode = "p" then "ok nt" else "ok")
+                else if mode = "p" then "ok nt"
+              else if mode = "t" && qy.pq_distinct && count_groups inp >= 2 then "ok nt" else "ok")
        | [] -> failwith "no output")
   | _ -> "bad line"
 
